@@ -247,6 +247,12 @@ def run(fx, tier):
             'shared_subscription_available', 'subscription_identifier_available', 'receive_maximum', 'server_keep_alive')
     v.rule('R-TABLE', 'identifiers / value types of the CONNACK capability properties equal MQTT 5 Table 2-4 (static_assert witnesses)')
     run_witness(v, 'C15', lambda row: any(row in ('id:' + c_, 'type:' + c_, 'pack:connack:' + c_) for c_ in CAPS))
+    # a restarted client starts without the previous connection's CONNACK: limits such as Maximum Packet Size are those of
+    # THIS connection (mqtt_ctx copy constructor resets ca_props/state; shared with C10)
+    from c10 import config_copy_rule
+    if 'R-FLOW' not in v.rules:
+        v.rule('R-FLOW', 'configuration is carried over to a restarted client, negotiated state is not')
+    config_copy_rule(fx, v, 'C15')
     v.expect_min('R-OWN', 8, 'capability store: writers, provenance, dominance x TUs')
     v.expect_min('R-DOM', 2000, 'capability obligations over perform() paths')
     return v.finish(
